@@ -2,6 +2,7 @@
   Model of gocql's `ring` (ring.go) — the three indexes `hosts` (by host id), `hostIPToUUID`
   (host id by node-to-node address), `hostList` (ordered) — and of the diff loop of
   `refreshRing` (host_source.go): add / update / replace on address change / remove.
+  `Ring.remove` is `removeHost` as REPAIRED for KF-C16-1 (props/C16.fix-KF-C16-1.diff).
 
   An `RHost` stands for one `*HostInfo` object: `obj` is the identity of the object, `id` its host id,
   `addr` its node-to-node address (broadcast_address or peer; 0 = none, i.e. 0.0.0.0),
@@ -133,5 +134,21 @@ def Ring.refresh (r : Ring) (filter : RHost → Bool) (reported : List RHost) : 
   match refreshLoop filter reported (r, r.byId, {}) with
   | ((r1, prev, eff), .ok) => (removeAll r1 prev, .ok, { eff with removed := eff.removed ++ prev.map (·.2) })
   | ((r1, _, eff), e) => (r1, e, eff)
+
+/-! ### the observations the property speaks of ("node details are looked up by id and by address consistently") -/
+
+/-- the hosts of the ring that are NOT found by their id and by their address (the property: none) -/
+def Ring.notFound (r : Ring) : List RHost :=
+  r.allHosts.filter (fun h => !(decide (r.getHost h.id = some h) && decide (r.getHostByIP h.addr = (some h, true))))
+
+/-- the weaker observation that also makes sense while hosts share an address: the hosts of the ring that
+are not found by their id, or whose address does not lead to a host of the ring with that address, or not
+to the host itself although no other host of the ring has its address -/
+def Ring.uncovered (r : Ring) : List RHost :=
+  r.allHosts.filter (fun h => !(decide (r.getHost h.id = some h) &&
+    (match r.getHostByIP h.addr with
+     | (some h', true) => decide (h' ∈ r.allHosts) && h'.addr == h.addr &&
+                          (decide (h' = h) || r.allHosts.any (fun x => decide (x ≠ h) && x.addr == h.addr))
+     | _ => false)))
 
 end Ring
